@@ -125,25 +125,27 @@ pub fn reference(scn: &Scenario) -> Ref {
         is_match: if short { &is_match } else { &never },
         stop_calls: None,
     };
-    for i in scn.pre.min(n)..n {
+    let order: Vec<usize> = if scn.src == Src::IterEndless { vec![] } else { source_order(scn.src, &scn.vals) };
+    let n = if scn.src == Src::IterEndless { n } else { order.len() };
+    // k: position in source order (what `*_with_index` reports); i: index of the input value (id = i + 1)
+    for k in scn.pre.min(n)..n {
+        let i = if scn.src == Src::IterEndless { k } else { order[k] };
         let mut x = src_elem(scn, i);
         work += 1;
-        match scn.src {
-            Src::SliceCloned => {
-                clones.push(x.id);
-                x = clone_fn(x);
-                work += 1;
-            }
-            Src::Range => calls.push((STAGE_SRC, x.id, 0)),
-            _ => {}
+        if scn.src.clones() {
+            clones.push(x.id);
+            x = clone_fn(x);
+            work += 1;
+        } else if matches!(scn.src, Src::Range | Src::BMap) {
+            calls.push((STAGE_SRC, x.id, 0));
         }
         let before = finals.len();
-        push_through(&mut ev, x, i, 0, &mut finals, &mut calls, &mut work);
-        consumed = i + 1;
+        push_through(&mut ev, x, k, 0, &mut finals, &mut calls, &mut work);
+        consumed = k + 1;
         if short && match_at.is_none() {
-            if let Some(k) = (before..finals.len()).find(|&k| is_match(&finals[k].1)) {
-                match_at = Some(k);
-                match_src_pos = Some(i);
+            if let Some(m) = (before..finals.len()).find(|&m| is_match(&finals[m].1)) {
+                match_at = Some(m);
+                match_src_pos = Some(k);
                 if scn.src == Src::IterEndless {
                     break;
                 }
